@@ -169,7 +169,7 @@ emit("suspended", #cos) local co = coroutine.wrap(function() while true do end e
 func TestC09(t *testing.T) {
 	rec := ev.New("C09")
 	defer Finish(t, rec)
-	rec.Rule("(1) exhaustive scripts over two coroutines whose bodies are every sequence of <= 2 (quick) / 3 (thorough) actions from {yield, resume the peer, resume self, read statuses/isyieldable, error, close the peer, yield inside pcall, declare a to-be-closed variable, coroutine.running}, driven by a main program that resumes each up to three times with values, reads statuses, yields from main, closes both and resumes a dead one; (2) rapid programs from the coroutine-heavy profile (generators, wrap, nested coroutines, yield across pcall, close with pending handlers, errors inside coroutines) in several renderings; (3) kill-by-quota templates inside coroutines. Oracle: reference interpreter for values/status/errors; Go race detector (the binary is built with -race; any report attributed to the running program is a violation); a watchdog for deadlock; goroutine count back to baseline when every coroutine has ended. GOMAXPROCS is varied. Non-trivial: both coroutines were resumed and at least one of {nested resume, error delivered to a resumer, close of a suspended started coroutine, kill} occurred; distinct by program text.")
+	rec.Rule("(1) exhaustive scripts over two coroutines: A's body is every sequence of <= 2 (quick) / 3 (thorough) actions, B's every sequence of <= 2, from {yield, resume the peer, resume self, read statuses/isyieldable, error, close the peer, yield inside pcall, declare a to-be-closed variable, coroutine.running, yield inside a pcall that holds a to-be-closed variable, a to-be-closed variable whose handler creates/resumes/wraps/closes coroutines, one whose handler yields}; scripts whose values the manual leaves open are run all the same and judged on the model-free clauses only (liveness-only); driven by a main program that resumes each up to three times with values, reads statuses, yields from main, closes both and resumes a dead one; (2) rapid programs from the coroutine-heavy profile (generators, wrap, nested coroutines, yield across pcall, close with pending handlers, errors inside coroutines) in several renderings; (3) kill-by-quota templates inside coroutines. Oracle: reference interpreter for values/status/errors; Go race detector (the binary is built with -race; any report attributed to the running program is a violation); a watchdog for deadlock; goroutine count back to baseline when every coroutine has ended. GOMAXPROCS is varied. Non-trivial: both coroutines were resumed and at least one of {nested resume, error delivered to a resumer, close of a suspended started coroutine, kill} occurred; distinct by program text.")
 	rec.Assume("schedules inside Go's runtime are sampled (GOMAXPROCS, repetition), not enumerated; the race detector reports a conflicting pair whenever both accesses execute without happens-before, independent of timing")
 	rec.Assume("a wall-clock watchdog (2 x 60 s) is used only to call a run that never returns a deadlock")
 	progcheck.ApplyKnownFindings(rec)
